@@ -123,6 +123,8 @@ def selector_grammar(ctx, rule=None):
 
 
 def run(ctx):
+    from .configtime import no_identity_test_against_literals as _no_is_literal
+    _no_is_literal(ctx, 'C13.R3', classes=('Slicer', 'PlateSlicer', 'Plate'))
     from .configtime import no_shared_mutable_defaults as _mutdef, selection_not_changed_in_place as _sel_inplace
     _mutdef(ctx, 'C13.R3', classes=('Slicer', 'PlateSlicer', 'Plate'))
     _sel_inplace(ctx, 'C13.R3')
